@@ -1,5 +1,576 @@
 package main
 
-type modelFS struct{}
+// Model file system: *os.File is a concrete type that go-car names, so its methods are modelled
+// here over an in-engine tree (path -> file with symbolic content of concrete length).
 
-func registerOSModels() {}
+import (
+	"fmt"
+	"go/token"
+	"go/types"
+	"path"
+	"sort"
+	"strings"
+
+	"golang.org/x/tools/go/ssa"
+)
+
+type mfile struct {
+	data []*Term
+	id   int
+}
+
+type mnode struct {
+	kind   int // 0 file, 1 dir, 2 symlink
+	file   *mfile
+	target string
+}
+
+type fsWrite struct {
+	path string
+	off  int
+	data []*Term
+	trunc int // >=0: truncate to this size
+}
+
+type mhandle struct {
+	path   string
+	f      *mfile
+	pos    int
+	closed bool
+	write  bool
+	appendMode bool
+}
+
+type modelFS struct {
+	nodes   map[string]*mnode
+	handles map[*Cell]*mhandle
+	log     []fsWrite
+	cwd     string
+}
+
+func (ex *Exec) getFS() *modelFS {
+	if ex.fs == nil {
+		ex.fs = &modelFS{nodes: map[string]*mnode{"/": {kind: 1}, "/vfs": {kind: 1}}, handles: map[*Cell]*mhandle{}, cwd: "/vfs"}
+	}
+	return ex.fs
+}
+
+var fileInfoType = types.NewNamed(types.NewTypeName(token.NoPos, nil, "verifFileInfo", nil), types.NewStruct(nil, nil), nil)
+
+type mfileInfo struct {
+	name string
+	size int
+	kind int
+}
+
+func (ex *Exec) osErr(kind string, op, p string) *IfaceVal {
+	// errors are *fs.PathError wrapping a sentinel; modelled as an opaque error wrapping fs.ErrNotExist etc.
+	var inner *IfaceVal
+	switch kind {
+	case "notexist":
+		inner = ex.pkgGlobalValue("io/fs", "ErrNotExist").(*IfaceVal)
+	case "exist":
+		inner = ex.pkgGlobalValue("io/fs", "ErrExist").(*IfaceVal)
+	case "closed":
+		inner = ex.pkgGlobalValue("io/fs", "ErrClosed").(*IfaceVal)
+	default:
+		inner = ex.pkgGlobalValue("io/fs", "ErrInvalid").(*IfaceVal)
+	}
+	return ex.newOpaqueError(op+" "+p+": "+kind, []*IfaceVal{inner})
+}
+
+func (fs *modelFS) clean(p string) string {
+	if !strings.HasPrefix(p, "/") {
+		p = path.Join(fs.cwd, p)
+	}
+	return path.Clean(p)
+}
+
+// resolve follows symlinks in every component (and in the last one if followLast).
+func (fs *modelFS) resolve(p string, followLast bool, depth int) (string, bool) {
+	if depth > 16 {
+		return "", false
+	}
+	p = fs.clean(p)
+	if p == "/" {
+		return "/", true
+	}
+	parts := strings.Split(strings.TrimPrefix(p, "/"), "/")
+	cur := "/"
+	for i, comp := range parts {
+		next := path.Join(cur, comp)
+		n := fs.nodes[next]
+		last := i == len(parts)-1
+		if n != nil && n.kind == 2 && (!last || followLast) {
+			tgt := n.target
+			if !strings.HasPrefix(tgt, "/") {
+				tgt = path.Join(cur, tgt)
+			}
+			rest := strings.Join(parts[i+1:], "/")
+			return fs.resolve(path.Join(tgt, rest), followLast, depth+1)
+		}
+		if n == nil && !last {
+			return next, false // missing intermediate directory
+		}
+		if n != nil && !last && n.kind != 1 {
+			return next, false
+		}
+		cur = next
+	}
+	return cur, true
+}
+
+func (ex *Exec) newFileValue(h *mhandle, t types.Type) Value {
+	// t is *os.File
+	et := t.(*types.Pointer).Elem()
+	c := ex.newCell(ex.zero(et))
+	ex.getFS().handles[c] = h
+	return &PtrVal{cell: c, typ: et}
+}
+
+func (ex *Exec) handleOf(v Value) *mhandle {
+	p, ok := v.(*PtrVal)
+	if !ok || p.isNil() || p.cell == nil {
+		ex.goPanicStr("runtime error: invalid memory address or nil pointer dereference (nil *os.File)")
+	}
+	h := ex.getFS().handles[p.cell]
+	if h == nil {
+		ex.unsupported("*os.File not created by the model file system")
+	}
+	return h
+}
+
+func (ex *Exec) concreteString(v Value, what string) string {
+	s, ok := v.(*StrVal).concrete()
+	if !ok {
+		ex.unsupported("symbolic " + what)
+	}
+	return s
+}
+
+const (
+	oWRONLY = 0x1
+	oRDWR   = 0x2
+	oAPPEND = 0x400
+	oCREATE = 0x40
+	oEXCL   = 0x80
+	oTRUNC  = 0x200
+)
+
+func (ex *Exec) fsOpen(fn *ssa.Function, name string, flag int) Value {
+	fs := ex.getFS()
+	ft := fn.Signature.Results().At(0).Type()
+	rp, ok := fs.resolve(name, true, 0)
+	if !ok {
+		return TupleVal{&PtrVal{}, ex.osErr("notexist", "open", name)}
+	}
+	n := fs.nodes[rp]
+	if n == nil {
+		if flag&oCREATE == 0 {
+			return TupleVal{&PtrVal{}, ex.osErr("notexist", "open", name)}
+		}
+		parent := fs.nodes[path.Dir(rp)]
+		if parent == nil || parent.kind != 1 {
+			return TupleVal{&PtrVal{}, ex.osErr("notexist", "open", name)}
+		}
+		n = &mnode{kind: 0, file: &mfile{id: ex.nextID()}}
+		fs.nodes[rp] = n
+		fs.log = append(fs.log, fsWrite{path: rp, trunc: 0})
+	} else {
+		if flag&oCREATE != 0 && flag&oEXCL != 0 {
+			return TupleVal{&PtrVal{}, ex.osErr("exist", "open", name)}
+		}
+		if n.kind == 1 {
+			if flag&(oWRONLY|oRDWR) != 0 {
+				return TupleVal{&PtrVal{}, ex.osErr("invalid", "open", name)}
+			}
+			h := &mhandle{path: rp, f: &mfile{}}
+			return TupleVal{ex.newFileValue(h, ft), nilErr()}
+		}
+		if flag&oTRUNC != 0 && flag&(oWRONLY|oRDWR) != 0 {
+			n.file.data = nil
+			fs.log = append(fs.log, fsWrite{path: rp, trunc: 0})
+		}
+	}
+	h := &mhandle{path: rp, f: n.file, write: flag&(oWRONLY|oRDWR) != 0, appendMode: flag&oAPPEND != 0}
+	return TupleVal{ex.newFileValue(h, ft), nilErr()}
+}
+
+func (ex *Exec) fsWriteAt(h *mhandle, data []*Term, off int) {
+	f := h.f
+	for len(f.data) < off+len(data) {
+		f.data = append(f.data, ex.tt.BV(0, 8))
+	}
+	copy(f.data[off:], data)
+	ex.getFS().log = append(ex.getFS().log, fsWrite{path: h.path, off: off, data: append([]*Term(nil), data...), trunc: -1})
+}
+
+func (ex *Exec) intArg(v Value, what string) int {
+	return int(int64(ex.Concretize(v.(*Term), what)))
+}
+
+func registerOSModels() {
+	ioEOF := func(ex *Exec) Value { return ex.pkgGlobalValue("io", "EOF") }
+	intrinsics["os.OpenFile"] = func(ex *Exec, fn *ssa.Function, a []Value) Value {
+		return ex.fsOpen(fn, ex.concreteString(a[0], "file name"), ex.intArg(a[1], "open flags"))
+	}
+	intrinsics["os.Open"] = func(ex *Exec, fn *ssa.Function, a []Value) Value {
+		return ex.fsOpen(fn, ex.concreteString(a[0], "file name"), 0)
+	}
+	intrinsics["os.Create"] = func(ex *Exec, fn *ssa.Function, a []Value) Value {
+		return ex.fsOpen(fn, ex.concreteString(a[0], "file name"), oRDWR|oCREATE|oTRUNC)
+	}
+	statImpl := func(follow bool) intrinsicFn {
+		return func(ex *Exec, fn *ssa.Function, a []Value) Value {
+			fs := ex.getFS()
+			name := ex.concreteString(a[0], "file name")
+			rp, ok := fs.resolve(name, follow, 0)
+			n := fs.nodes[rp]
+			if !ok || n == nil {
+				return TupleVal{&IfaceVal{}, ex.osErr("notexist", "stat", name)}
+			}
+			sz := 0
+			if n.kind == 0 {
+				sz = len(n.file.data)
+			}
+			return TupleVal{&IfaceVal{t: fileInfoType, v: &OpaqueVal{kind: "fileinfo", x: &mfileInfo{name: path.Base(rp), size: sz, kind: n.kind}}}, nilErr()}
+		}
+	}
+	intrinsics["os.Stat"] = statImpl(true)
+	intrinsics["os.Lstat"] = statImpl(false)
+	intrinsics["(*os.File).Stat"] = func(ex *Exec, fn *ssa.Function, a []Value) Value {
+		h := ex.handleOf(a[0])
+		if h.closed {
+			return TupleVal{&IfaceVal{}, ex.osErr("closed", "stat", h.path)}
+		}
+		return TupleVal{&IfaceVal{t: fileInfoType, v: &OpaqueVal{kind: "fileinfo", x: &mfileInfo{name: path.Base(h.path), size: len(h.f.data)}}}, nilErr()}
+	}
+	nativeTypes[fileInfoType] = map[string]nativeFn{
+		"Size":  func(ex *Exec, a []Value) Value { return ex.intTerm(a[0].(*OpaqueVal).x.(*mfileInfo).size) },
+		"IsDir": func(ex *Exec, a []Value) Value { return ex.tt.Bool(a[0].(*OpaqueVal).x.(*mfileInfo).kind == 1) },
+		"Name":  func(ex *Exec, a []Value) Value { return ex.strConst(a[0].(*OpaqueVal).x.(*mfileInfo).name) },
+		"Mode": func(ex *Exec, a []Value) Value {
+			fi := a[0].(*OpaqueVal).x.(*mfileInfo)
+			m := uint64(0o644)
+			if fi.kind == 1 {
+				m = 1<<31 | 0o755
+			} else if fi.kind == 2 {
+				m = 1<<27 | 0o777
+			}
+			return ex.tt.BV(m, 32)
+		},
+		"ModTime": func(ex *Exec, a []Value) Value { ex.unsupported("FileInfo.ModTime"); return nil },
+		"Sys":     func(ex *Exec, a []Value) Value { return &IfaceVal{} },
+	}
+	intrinsics["(*os.File).Name"] = func(ex *Exec, fn *ssa.Function, a []Value) Value {
+		return ex.strConst(ex.handleOf(a[0]).path)
+	}
+	intrinsics["(*os.File).Close"] = func(ex *Exec, fn *ssa.Function, a []Value) Value {
+		p := a[0].(*PtrVal)
+		if p.isNil() {
+			return ex.pkgGlobalValue("os", "ErrInvalid")
+		}
+		h := ex.handleOf(a[0])
+		if h.closed {
+			return ex.osErr("closed", "close", h.path)
+		}
+		h.closed = true
+		return nilErr()
+	}
+	intrinsics["(*os.File).ReadAt"] = func(ex *Exec, fn *ssa.Function, a []Value) Value {
+		h := ex.handleOf(a[0])
+		if h.closed {
+			return TupleVal{ex.intTerm(0), ex.osErr("closed", "read", h.path)}
+		}
+		p := a[1].(*SliceVal)
+		off := ex.intArg(a[2], "ReadAt offset")
+		if off < 0 {
+			return TupleVal{ex.intTerm(0), ex.newOpaqueError("negative offset", nil)}
+		}
+		n := 0
+		for n < p.len && off+n < len(h.f.data) {
+			p.arr.e[p.off+n] = h.f.data[off+n]
+			n++
+		}
+		if n < p.len {
+			return TupleVal{ex.intTerm(n), ioEOF(ex)}
+		}
+		return TupleVal{ex.intTerm(n), nilErr()}
+	}
+	intrinsics["(*os.File).Read"] = func(ex *Exec, fn *ssa.Function, a []Value) Value {
+		h := ex.handleOf(a[0])
+		if h.closed {
+			return TupleVal{ex.intTerm(0), ex.osErr("closed", "read", h.path)}
+		}
+		p := a[1].(*SliceVal)
+		if p.len == 0 {
+			return TupleVal{ex.intTerm(0), nilErr()}
+		}
+		n := 0
+		for n < p.len && h.pos < len(h.f.data) {
+			p.arr.e[p.off+n] = h.f.data[h.pos]
+			n++
+			h.pos++
+		}
+		if n == 0 {
+			return TupleVal{ex.intTerm(0), ioEOF(ex)}
+		}
+		return TupleVal{ex.intTerm(n), nilErr()}
+	}
+	intrinsics["(*os.File).WriteAt"] = func(ex *Exec, fn *ssa.Function, a []Value) Value {
+		h := ex.handleOf(a[0])
+		if h.closed {
+			return TupleVal{ex.intTerm(0), ex.osErr("closed", "write", h.path)}
+		}
+		if !h.write {
+			return TupleVal{ex.intTerm(0), ex.newOpaqueError("bad file descriptor", nil)}
+		}
+		p := a[1].(*SliceVal)
+		off := ex.intArg(a[2], "WriteAt offset")
+		if off < 0 {
+			return TupleVal{ex.intTerm(0), ex.newOpaqueError("negative offset", nil)}
+		}
+		ex.fsWriteAt(h, ex.sliceBytesOrNil(p), off)
+		return TupleVal{ex.intTerm(p.len), nilErr()}
+	}
+	intrinsics["(*os.File).Write"] = func(ex *Exec, fn *ssa.Function, a []Value) Value {
+		h := ex.handleOf(a[0])
+		if h.closed {
+			return TupleVal{ex.intTerm(0), ex.osErr("closed", "write", h.path)}
+		}
+		if !h.write {
+			return TupleVal{ex.intTerm(0), ex.newOpaqueError("bad file descriptor", nil)}
+		}
+		p := a[1].(*SliceVal)
+		if h.appendMode {
+			h.pos = len(h.f.data)
+		}
+		ex.fsWriteAt(h, ex.sliceBytesOrNil(p), h.pos)
+		h.pos += p.len
+		return TupleVal{ex.intTerm(p.len), nilErr()}
+	}
+	intrinsics["(*os.File).WriteString"] = func(ex *Exec, fn *ssa.Function, a []Value) Value {
+		h := ex.handleOf(a[0])
+		s := a[1].(*StrVal)
+		ex.fsWriteAt(h, s.b, h.pos)
+		h.pos += len(s.b)
+		return TupleVal{ex.intTerm(len(s.b)), nilErr()}
+	}
+	intrinsics["(*os.File).Seek"] = func(ex *Exec, fn *ssa.Function, a []Value) Value {
+		h := ex.handleOf(a[0])
+		if h.closed {
+			return TupleVal{ex.intTerm(0), ex.osErr("closed", "seek", h.path)}
+		}
+		off := ex.intArg(a[1], "Seek offset")
+		wh := ex.intArg(a[2], "Seek whence")
+		var abs int
+		switch wh {
+		case 0:
+			abs = off
+		case 1:
+			abs = h.pos + off
+		case 2:
+			abs = len(h.f.data) + off
+		default:
+			return TupleVal{ex.intTerm(0), ex.newOpaqueError("invalid whence", nil)}
+		}
+		if abs < 0 {
+			return TupleVal{ex.intTerm(0), ex.newOpaqueError("negative position", nil)}
+		}
+		h.pos = abs
+		return TupleVal{ex.intTerm(abs), nilErr()}
+	}
+	intrinsics["(*os.File).Truncate"] = func(ex *Exec, fn *ssa.Function, a []Value) Value {
+		h := ex.handleOf(a[0])
+		if h.closed {
+			return ex.osErr("closed", "truncate", h.path)
+		}
+		sz := ex.intArg(a[1], "Truncate size")
+		if sz < 0 {
+			return ex.newOpaqueError("truncate: invalid argument", nil)
+		}
+		ex.fsTruncate(h.path, h.f, sz)
+		return nilErr()
+	}
+	intrinsics["(*os.File).Sync"] = func(ex *Exec, fn *ssa.Function, a []Value) Value { return nilErr() }
+	intrinsics["os.Truncate"] = func(ex *Exec, fn *ssa.Function, a []Value) Value {
+		fs := ex.getFS()
+		name := ex.concreteString(a[0], "file name")
+		rp, ok := fs.resolve(name, true, 0)
+		n := fs.nodes[rp]
+		if !ok || n == nil || n.kind != 0 {
+			return ex.osErr("notexist", "truncate", name)
+		}
+		sz := ex.intArg(a[1], "Truncate size")
+		if sz < 0 {
+			return ex.newOpaqueError("truncate: invalid argument", nil)
+		}
+		ex.fsTruncate(rp, n.file, sz)
+		return nilErr()
+	}
+	intrinsics["os.Remove"] = func(ex *Exec, fn *ssa.Function, a []Value) Value {
+		fs := ex.getFS()
+		name := ex.concreteString(a[0], "file name")
+		rp, ok := fs.resolve(name, false, 0)
+		if !ok || fs.nodes[rp] == nil {
+			return ex.osErr("notexist", "remove", name)
+		}
+		delete(fs.nodes, rp)
+		fs.log = append(fs.log, fsWrite{path: rp, trunc: -2})
+		return nilErr()
+	}
+	intrinsics["(*os.File).ReadFrom"] = func(ex *Exec, fn *ssa.Function, a []Value) Value {
+		return ex.callBody(ex.pkgFunc("os", "genericReadFrom"), a, nil)
+	}
+	intrinsics["(*os.File).WriteTo"] = func(ex *Exec, fn *ssa.Function, a []Value) Value {
+		return ex.callBody(ex.pkgFunc("os", "genericWriteTo"), a, nil)
+	}
+	intrinsics["os.MkdirAll"] = func(ex *Exec, fn *ssa.Function, a []Value) Value {
+		fs := ex.getFS()
+		name := fs.clean(ex.concreteString(a[0], "dir name"))
+		parts := strings.Split(strings.TrimPrefix(name, "/"), "/")
+		cur := "/"
+		for _, c := range parts {
+			if c == "" {
+				continue
+			}
+			next := path.Join(cur, c)
+			rp, ok := fs.resolve(next, true, 0)
+			if !ok {
+				return ex.osErr("notexist", "mkdir", name)
+			}
+			n := fs.nodes[rp]
+			if n == nil {
+				fs.nodes[rp] = &mnode{kind: 1}
+				fs.log = append(fs.log, fsWrite{path: rp, trunc: -3})
+			} else if n.kind != 1 {
+				return ex.newOpaqueError("mkdir: not a directory", nil)
+			}
+			cur = rp
+		}
+		return nilErr()
+	}
+	intrinsics["os.Mkdir"] = func(ex *Exec, fn *ssa.Function, a []Value) Value {
+		fs := ex.getFS()
+		name := ex.concreteString(a[0], "dir name")
+		rp, ok := fs.resolve(name, false, 0)
+		if !ok {
+			return ex.osErr("notexist", "mkdir", name)
+		}
+		if fs.nodes[rp] != nil {
+			return ex.osErr("exist", "mkdir", name)
+		}
+		fs.nodes[rp] = &mnode{kind: 1}
+		fs.log = append(fs.log, fsWrite{path: rp, trunc: -3})
+		return nilErr()
+	}
+	intrinsics["os.Symlink"] = func(ex *Exec, fn *ssa.Function, a []Value) Value {
+		fs := ex.getFS()
+		target := ex.concreteString(a[0], "symlink target")
+		name := ex.concreteString(a[1], "symlink name")
+		rp, ok := fs.resolve(name, false, 0)
+		if !ok {
+			return ex.osErr("notexist", "symlink", name)
+		}
+		if fs.nodes[rp] != nil {
+			return ex.osErr("exist", "symlink", name)
+		}
+		fs.nodes[rp] = &mnode{kind: 2, target: target}
+		fs.log = append(fs.log, fsWrite{path: rp, trunc: -4})
+		return nilErr()
+	}
+	intrinsics["path/filepath.EvalSymlinks"] = func(ex *Exec, fn *ssa.Function, a []Value) Value {
+		fs := ex.getFS()
+		name := ex.concreteString(a[0], "path")
+		rp, ok := fs.resolve(name, true, 0)
+		if !ok || fs.nodes[rp] == nil {
+			return TupleVal{&StrVal{}, ex.osErr("notexist", "lstat", name)}
+		}
+		if !strings.HasPrefix(name, "/") {
+			// relative in, relative out
+			rel := strings.TrimPrefix(rp, fs.cwd+"/")
+			if rp == fs.cwd {
+				rel = "."
+			}
+			return TupleVal{ex.strConst(rel), nilErr()}
+		}
+		return TupleVal{ex.strConst(rp), nilErr()}
+	}
+	intrinsics["os.Getwd"] = func(ex *Exec, fn *ssa.Function, a []Value) Value {
+		return TupleVal{ex.strConst(ex.getFS().cwd), nilErr()}
+	}
+	intrinsics["path/filepath.Abs"] = func(ex *Exec, fn *ssa.Function, a []Value) Value {
+		return TupleVal{ex.strConst(ex.getFS().clean(ex.concreteString(a[0], "path"))), nilErr()}
+	}
+	// harness-side access to the model file system
+	apiFns["vFSPath"] = func(ex *Exec, fn *ssa.Function, a []Value) Value {
+		ex.getFS()
+		return ex.strConst("/vfs/" + ex.tagOf(a[0]))
+	}
+	apiFns["vFSWriteFile"] = func(ex *Exec, fn *ssa.Function, a []Value) Value {
+		fs := ex.getFS()
+		p := fs.clean(ex.concreteString(a[0], "path"))
+		d := a[1].(*SliceVal)
+		fs.nodes[p] = &mnode{kind: 0, file: &mfile{data: append([]*Term(nil), ex.sliceBytesOrNil(d)...), id: ex.nextID()}}
+		return nil
+	}
+	apiFns["vFSReadFile"] = func(ex *Exec, fn *ssa.Function, a []Value) Value {
+		fs := ex.getFS()
+		p, ok := fs.resolve(ex.concreteString(a[0], "path"), true, 0)
+		n := fs.nodes[p]
+		if !ok || n == nil || n.kind != 0 {
+			return TupleVal{&SliceVal{}, ex.tt.False}
+		}
+		return TupleVal{ex.mkByteSlice(append([]*Term(nil), n.file.data...)), ex.tt.True}
+	}
+	apiFns["vFSExists"] = func(ex *Exec, fn *ssa.Function, a []Value) Value {
+		fs := ex.getFS()
+		p, ok := fs.resolve(ex.concreteString(a[0], "path"), false, 0)
+		return ex.tt.Bool(ok && fs.nodes[p] != nil)
+	}
+	apiFns["vFSMkdir"] = func(ex *Exec, fn *ssa.Function, a []Value) Value {
+		fs := ex.getFS()
+		fs.nodes[fs.clean(ex.concreteString(a[0], "path"))] = &mnode{kind: 1}
+		return nil
+	}
+	apiFns["vFSSymlink"] = func(ex *Exec, fn *ssa.Function, a []Value) Value {
+		fs := ex.getFS()
+		fs.nodes[fs.clean(ex.concreteString(a[1], "path"))] = &mnode{kind: 2, target: ex.concreteString(a[0], "target")}
+		return nil
+	}
+	// vFSMutations: number of mutations logged so far (writes, truncates, creations, removals)
+	apiFns["vFSMutations"] = func(ex *Exec, fn *ssa.Function, a []Value) Value {
+		return ex.intTerm(len(ex.getFS().log))
+	}
+	// vFSList: sorted list of all paths under the given prefix, as one newline-joined string
+	apiFns["vFSList"] = func(ex *Exec, fn *ssa.Function, a []Value) Value {
+		fs := ex.getFS()
+		pre := fs.clean(ex.concreteString(a[0], "path"))
+		var ps []string
+		for p, n := range fs.nodes {
+			if p == pre || strings.HasPrefix(p, pre+"/") {
+				k := "f"
+				if n.kind == 1 {
+					k = "d"
+				} else if n.kind == 2 {
+					k = "l:" + n.target
+				}
+				ps = append(ps, p+" "+k)
+			}
+		}
+		sort.Strings(ps)
+		return ex.strConst(strings.Join(ps, "\n"))
+	}
+}
+
+func (ex *Exec) fsTruncate(p string, f *mfile, sz int) {
+	if sz < len(f.data) {
+		f.data = f.data[:sz:sz]
+	}
+	for len(f.data) < sz {
+		f.data = append(f.data, ex.tt.BV(0, 8))
+	}
+	ex.getFS().log = append(ex.getFS().log, fsWrite{path: p, trunc: sz})
+}
+
+var _ = fmt.Sprint
